@@ -10,8 +10,14 @@ use tonic::{Code, Status};
 use tonic_types::*;
 
 fn s(rng: &mut Rng) -> String {
-    match rng.below(5) {
-        0 => String::new(),
+    match rng.below(24) {
+        0..=4 => String::new(),
+        // "arbitrary strings": also long ones (beyond any documented recommendation for a field)
+        5 => {
+            let n = *rng.pick(&[63usize, 64, 65, 66, 127, 128, 129, 255, 256, 300, 1000]);
+            (0..n).map(|i| (b'a' + ((i as u8).wrapping_add(rng.below(26) as u8)) % 26) as char).collect()
+        }
+        6 => (0..rng.urange(33, 90)).map(|_| *rng.pick(&['é', 'ß', 'я', '中'])).collect(),
         _ => rng.unicode(12),
     }
 }
@@ -148,7 +154,8 @@ fn vec_case(rng: &mut Rng, ctx: &mut Ctx) {
         _ => rng.urange(2, 12),
     };
     let details: Vec<ErrorDetail> = (0..n).map(|_| gen_detail(rng, rng.clone().below(10))).collect();
-    let code = *rng.pick(&ALL_CODES[1..]);
+    // any code, OK included: details attached to a status travel with it whatever its code
+    let code = *rng.pick(&ALL_CODES[..]);
     let message = if rng.chance(1, 5) { String::new() } else { rng.unicode(20) };
     let want: Vec<String> = details.iter().map(repr).collect();
     let case_json = json!({"code": code as i32, "message": message, "details": want});
@@ -260,7 +267,8 @@ fn set_case(rng: &mut Rng, ctx: &mut Ctx, idx: u64) {
     if mask == 0 {
         ctx.count("set.empty");
     }
-    let code = *rng.pick(&ALL_CODES[1..]);
+    // any code, OK included: details attached to a status travel with it whatever its code
+    let code = *rng.pick(&ALL_CODES[..]);
     let message = if rng.chance(1, 5) { String::new() } else { rng.unicode(20) };
     let case_json = json!({"code": code as i32, "message": message, "kinds_mask": mask, "details": want});
     ctx.begin("set", case_json.clone());
